@@ -17,7 +17,7 @@ import numpy as np
 from . import common as C
 from .common import run_child
 
-REPORT = C.VERIF / "lean" / ".lake" / "gen_kernels_report.json"
+REPORT = C.LEAN_DIR / ".lake" / "gen_kernels_report.json"
 
 
 PTYPES = ["sersic", "doublesersic", "sersic_exp", "sersic_pointsource", "pointsource", "exp", "dev"]
